@@ -1,9 +1,12 @@
 #!/bin/bash
-# usage: tools/try_seed.sh <Cxx> <patch.diff> [extra check args]   -- applies a seeded change to /repo, runs the quick check, reverts
-pid=$1; patch=$2; shift 2
-cd /repo || exit 2
-if ! git diff --quiet; then echo "/repo dirty"; exit 2; fi
-git apply "$patch" 2>/dev/null || git apply --3way "$patch" || { echo "PATCH DOES NOT APPLY"; git checkout -- . ; exit 3; }
-cd /verif && ./check "$pid" quick --no-evidence --no-shrink "$@" > /var/tmp/try_seed.out 2>&1; rc=$?
-cd /repo && git reset -q --hard HEAD
-echo "exit=$rc"; grep -c VIOLATION /var/tmp/try_seed.out; grep "^FAIL" /var/tmp/try_seed.out | cut -c1-220 | head -8
+# usage: tools/try_seed.sh <Cxx> <patch.diff> [extra check args]
+# Runs the quick check against a scratch worktree of /repo (at /repo's HEAD) carrying the seeded change; /repo itself is
+# not touched, so background runs that read /repo are not disturbed.  The worktree is removed afterwards.
+pid=$1; patch=$(realpath "$2"); shift 2
+wt=/var/tmp/tryseed.$$
+git -C /repo worktree add -q --detach "$wt" HEAD || exit 2
+cleanup() { git -C /repo worktree remove --force "$wt" 2>/dev/null; git -C /repo worktree prune; }
+trap cleanup EXIT
+( cd "$wt" && { git apply "$patch" 2>/dev/null || git apply --3way "$patch"; } ) || { echo "PATCH DOES NOT APPLY"; exit 3; }
+cd /verif && VF_REPO="$wt" ./check "$pid" quick --no-evidence --no-shrink "$@" > /var/tmp/try_seed.$pid.out 2>&1; rc=$?
+echo "exit=$rc"; grep -c VIOLATION /var/tmp/try_seed.$pid.out; grep "^FAIL" /var/tmp/try_seed.$pid.out | cut -c1-220 | head -8
